@@ -37,7 +37,13 @@ LEVEL_NOTE = ("floating-point rounding not modelled (rel 1e-9); numpy.random var
               "a z-test of the NC fraction only in the thorough search; particles are identified by OBJECT IDENTITY in the model and in the run - 'distinct particles' in "
               "C14_iter_nodup_complete / C14_parent_child_consistent means distinct objects, whose values may coincide "
               "(trees with value-equal twins are part of the exact run and of the oracle); "
-              "C14_parent_child_consistent is proved both ways (parent uniqueness from WellFormed.flat); level consistency is proved as the defining recursion of get_from_level")
+              "C14_parent_child_consistent is proved both ways (parent uniqueness from WellFormed.flat); level consistency is proved as the defining recursion of get_from_level; hypothesis audit: "
+              "energies outside the property's 1e3..1e12 GeV are excluded by its quantifier - the real code gives nan/inf CTW "
+              "cross sections for E <= 0.149 GeV and a nan NC fraction below 57.5 GeV (always CC), and stays finite, "
+              "monotone and within [0,1] from 1 GeV to 1e25 GeV; C14_sigma_strict_mono needs only E >= 1; when the 1000 "
+              "secondary tries are used up the code returns None and Interaction.__init__ raises TypeError "
+              "(C14_retry_exhausted; only adversarial Poisson tapes; the run expects exactly TypeError); add_children / "
+              "get_children / get_parent of a foreign particle must raise ValueError (C14_add_unknown_parent, oracle tree-errors)")
 ASSUMPTIONS = ["np.interp / np.linspace / np.random.poisson modelled by their specification",
                "scipy.constants.N_A read from the installed scipy"]
 
@@ -284,6 +290,8 @@ def tree_impl(nroots, ops, vals=None):
                 return "caller-list-modified %d" % k, ev, ps
         except ValueError:
             return "error %d" % k, ev, ps
+        except Exception as e:      # noqa: BLE001 - only ValueError is the documented rejection
+            return "EXC %d %s: %s" % (k, type(e).__name__, str(e)[:80]), ev, ps
     if isinstance(roots_arg, (list, tuple)) and [id(x) for x in roots_arg] != [id(x) for x in ps[:nroots]]:
         return "caller-roots-modified", ev, ps
     allp = list(ev)
@@ -566,7 +574,7 @@ def check_tree(run, nroots, ops, vals=None):
     """consistency of one well-formed history (distinct particle OBJECTS - their values may coincide -, known parents)"""
     impl, ev, ps = tree_impl(nroots, ops, vals)
     inp = {"nroots": nroots, "ops": [[p, cs, b] for p, cs, b in ops], "values": list(vals) if vals is not None else None}
-    if impl.startswith("error") or impl.startswith("caller-"):
+    if impl.startswith("error") or impl.startswith("caller-") or impl.startswith("EXC"):
         run.fail_input("tree", inp, observed=impl, what="add_children raised on a well-formed history / the list handed "
                                                          "over by the caller was modified")
         return
@@ -652,6 +660,31 @@ def check_tree_interleaved(run, nroots, ops, vals=None):
             bad = "after add_children call %d (queries had been answered after every earlier call): %s" % (k, bad)
     if bad:
         run.fail_input("tree-interleaved", inp, observed=bad, what=bad)
+
+
+def check_tree_errors(run, nroots, ops):
+    """documented rejections: add_children / get_children / get_parent of a particle that is not in the tree raise
+    ValueError (and nothing else), and the tree is unchanged afterwards"""
+    impl, ev, ps = tree_impl(nroots, ops)
+    if impl.startswith("error") or impl.startswith("EXC") or impl.startswith("caller-"):
+        return
+    pp = P()
+    ghost = pp.Particle("nu_e", (0, 0, 7), (0, 0, 1), 1e9, interaction_type="cc", interaction_model=pp.Interaction)
+    before = [id(x) for x in ev]
+    for name, call in (("add_children", lambda: ev.add_children(ghost, [ghost])), ("get_children", lambda: ev.get_children(ghost)),
+                       ("get_parent", lambda: ev.get_parent(ghost))):
+        try:
+            r = call()
+            got = "returned %r" % (r,)
+        except ValueError:
+            got = None
+        except Exception as e:      # noqa: BLE001
+            got = "%s: %s" % (type(e).__name__, e)
+        if got is not None or [id(x) for x in ev] != before:
+            run.fail_input("tree-errors", {"nroots": nroots, "ops": [[p, cs, b] for p, cs, b in ops], "call": name},
+                           observed=got or "tree changed", expected="ValueError",
+                           what="%s of a particle that is not in the tree must raise ValueError and leave the tree unchanged" % name)
+            return
 
 
 def check_reassign(run, tname, model, steps):
@@ -761,6 +794,10 @@ def search(run, deep):
             steps.append(["read"])
         run.case(("oracle-reassign", tname, model, str(steps)[:160]))
         check_reassign(run, tname, model, steps)
+    for i in range(60 if deep else 6):
+        nroots, ops = random_history(rng, rng.choice([1, 4, 9]), flaws=False)
+        run.case(("oracle-tree-errors", nroots, str(ops)[:120]))
+        check_tree_errors(run, nroots, ops)
     # queries interleaved with add_children
     for i in range(300 if deep else 30):
         nroots, ops = random_history(rng, rng.choice([4, 8, 14, 22]), flaws=False)
@@ -843,6 +880,8 @@ def replay(run, data):
             check_interaction(run, c)
         finally:
             me.Tape = orig
+    elif k == "tree-errors":
+        check_tree_errors(run, i["nroots"], [(p, cs, b) for p, cs, b in i["ops"]])
     elif k == "tree-interleaved":
         check_tree_interleaved(run, i["nroots"], [(p, cs, b) for p, cs, b in i["ops"]], i.get("values"))
     elif k == "reassign":
